@@ -11,6 +11,14 @@
 (* An entry is <<stream, index>>.  The per-row arrays of a chunk are       *)
 (* modelled separately (rows = timestamps/messages/values/fingerprints,    *)
 (* types) because the decoders pass them separately.                       *)
+(* Label sets.  A stream may carry the retention pseudo label (ttl): the   *)
+(* callback strips it, it is not part of the stream.  The entries handed   *)
+(* over by ONE container of a per-entry decoder (the fields of an Influx   *)
+(* line, the records of an OTLP scope) may belong to DIFFERENT label sets  *)
+(* (mix): the container's labels plus entry-level labels that only every   *)
+(* other entry carries.  Every row carries the fingerprint (= label set    *)
+(* identity) the callback computed for it; Faithful demands the label set  *)
+(* of the entry itself, whatever was handed over before it.                *)
 (* Thresholds are scaled: L points (code: 1000), size limit S units        *)
 (* (code: 1 MiB); the concretiser scales counts and sizes back.            *)
 (***************************************************************************)
@@ -23,11 +31,16 @@ CONSTANTS
     L,              \* points limit of the remote-write decoder
     S,              \* chunk size limit in units
     Kinds,          \* decoder kinds: "perstream", "perentry", "prom"
-    PanicOnEmpty, TypesOfWholeSeries   \* named deviations of earlier code (both FALSE for the current tree)
+    Pseudo,         \* \subseteq BOOLEAN: may a stream carry the retention pseudo label
+    Mixes,          \* \subseteq BOOLEAN: may the entries of one container alternate between two label sets
+    PanicOnEmpty, TypesOfWholeSeries,  \* named deviations of earlier code (both FALSE for the current tree)
+    LeakLabels      \* named deviation FAMILY: label state of a container survives from one callback to the next
+                    \* (labels filtered/extended in place, attribute map shared): FALSE for the current tree
 
 VARIABLES
     kind,       \* decoder kind of this body
-    body,       \* Seq of [n: count, sz: size class, dup: BOOLEAN (same label set as stream 1)]
+    body,       \* Seq of [n: count, sz: size class, dup: BOOLEAN (same label set as stream 1),
+                \*         ttl: BOOLEAN (carries the pseudo label), mix: BOOLEAN (entries alternate between 2 label sets)]
     si, ei,     \* decoder position: stream index, entries of the stream already handed over
     points,     \* remote-write points counter
     pend,       \* entries of the current series collected but not yet handed to onEntries (prom)
@@ -41,21 +54,35 @@ VARIABLES
 
 vars == <<kind, body, si, ei, points, pend, rows, ntypes, series, size, seen, out, pc>>
 
-Stream == [n : Counts, sz : Sizes, dup : BOOLEAN]
+Stream == [n : Counts, sz : Sizes, dup : BOOLEAN, ttl : Pseudo, mix : Mixes]
 Bodies == UNION { [1..k -> Stream] : k \in 1..MaxStreams }
 
 \* a body that crosses the points threshold uses tiny entries only (keeps concrete bodies small)
-Sane(b) == \A i \in DOMAIN b : (b[i].n > 2 => b[i].sz = 0) /\ (i = 1 => ~b[i].dup)
+\* the label-set classes use tiny entries too; entry-level label sets exist in per-entry decoders only and need 2 entries
+Sane(k, b) == \A i \in DOMAIN b :
+    /\ (b[i].n > 2 => b[i].sz = 0) /\ (i = 1 => ~b[i].dup)
+    /\ ((b[i].ttl \/ b[i].mix) => b[i].sz = 0)
+    /\ (b[i].mix => (k = "perentry" /\ b[i].n >= 2))
 
 Init ==
     /\ kind \in Kinds
-    /\ body \in {b \in Bodies : Sane(b)}
+    /\ body \in {b \in Bodies : Sane(kind, b)}
     /\ si = 1 /\ ei = 0 /\ points = 0 /\ pend = <<>>
     /\ rows = <<>> /\ ntypes = 0 /\ series = {} /\ size = 0 /\ seen = {}
     /\ out = <<>> /\ pc = "decode"
 
-Key(i) == IF body[i].dup THEN 1 ELSE i            \* label set identity of stream i
+Key(i) == IF body[i].dup THEN 1 ELSE i            \* label set identity of stream i (the pseudo label is not part of it)
+\* label set identity of entry j of stream i: the stream's labels plus the entry-level labels ("full", 1);
+\* in a mixed container every second entry lacks the entry-level labels ("bare", 0)
+LS(i, j) == <<Key(i), IF body[i].mix THEN j % 2 ELSE 1>>
+\* what the callback fingerprints for entry j of stream i.  Current tree: the labels handed over, minus the pseudo label.
+\* LeakLabels: the label state left by the previous callback of the same container (it shows when the pseudo label had
+\* to be stripped or when the previous entry had labels this one lacks).
+Fp(i, j) == IF LeakLabels /\ j > 1 /\ (body[i].ttl \/ body[i].mix)
+              THEN <<Key(i), IF body[i].mix THEN 2 ELSE 3>>      \* a label set nobody submitted
+              ELSE LS(i, j)
 Ent(i, from, to) == [j \in 1..(to - from + 1) |-> <<i, from + j - 1>>]
+Rows(es) == [x \in DOMAIN es |-> <<es[x][1], es[x][2], Fp(es[x][1], es[x][2])>>]
 
 Flush ==
     /\ out' = Append(out, [rows |-> rows, ntypes |-> ntypes, series |-> series])
@@ -70,11 +97,12 @@ OnEntries(i, es, nt) ==
              THEN pc' = "panic" /\ UNCHANGED <<rows, ntypes, series, size, seen, out>>
              ELSE /\ ntypes' = ntypes + nt
                   /\ UNCHANGED <<rows, series, size, seen, out, pc>>
-      ELSE LET announce == Key(i) \notin seen
+      ELSE LET ls == Fp(i, es[1][2])      \* one callback = one label set (mixed containers hand over entry by entry)
+               announce == ls \notin seen
                nsize == size + Len(es) * body[i].sz
-               nrows == rows \o es
-               nser == IF announce THEN series \cup {i} ELSE series
-           IN /\ seen' = seen \cup {Key(i)}
+               nrows == rows \o Rows(es)
+               nser == IF announce THEN series \cup {ls} ELSE series
+           IN /\ seen' = seen \cup {ls}
               /\ IF nsize > S
                    THEN /\ out' = Append(out, [rows |-> nrows, ntypes |-> ntypes + nt, series |-> nser])
                         /\ rows' = <<>> /\ ntypes' = 0 /\ series' = {} /\ size' = 0
@@ -137,7 +165,8 @@ RECURSIVE FlatRows(_)
 FlatRows(o) == IF o = <<>> THEN <<>> ELSE Head(o).rows \o FlatRows(Tail(o))
 
 RECURSIVE AllEntries(_)
-AllEntries(i) == IF i > Len(body) THEN <<>> ELSE Ent(i, 1, body[i].n) \o AllEntries(i + 1)
+AllEntries(i) == IF i > Len(body) THEN <<>>
+                 ELSE [j \in 1..body[i].n |-> <<i, j, LS(i, j)>>] \o AllEntries(i + 1)
 
 \* every chunk is rectangular: the types array is as long as the other per-row arrays  (C02's ShapeOK)
 ShapeOK == \A k \in DOMAIN out : out[k].ntypes = Len(out[k].rows)
@@ -145,13 +174,14 @@ ShapeOK == \A k \in DOMAIN out : out[k].ntypes = Len(out[k].rows)
 \* a well-formed body is never answered with an error
 NoPanic == pc # "panic"
 
-\* when decoding is done, the chunks hold exactly the submitted entries, once each, in order
+\* when decoding is done, the chunks hold exactly the submitted entries, once each, in order, each with the
+\* fingerprint of its OWN label set
 Faithful == pc = "done" => FlatRows(out) = AllEntries(1)
 
 \* every label set is announced before or together with its first entry
 RECURSIVE Announced(_)
-Announced(o) == IF o = <<>> THEN {} ELSE {Key(i) : i \in Head(o).series} \cup Announced(Tail(o))
+Announced(o) == IF o = <<>> THEN {} ELSE Head(o).series \cup Announced(Tail(o))
 SeriesAnnounced ==
     pc = "done" => \A k \in DOMAIN out : \A j \in DOMAIN out[k].rows :
-        Key(out[k].rows[j][1]) \in Announced(SubSeq(out, 1, k))
+        out[k].rows[j][3] \in Announced(SubSeq(out, 1, k))
 =============================================================================
